@@ -6,6 +6,7 @@ use super::{RunCfg, hash_lines, seq_rng};
 use crate::lean::LeanDriver;
 use crate::report::{Disagreement, Report, Violation, write_replay};
 use crate::rng::Rng;
+use crate::vvm::{FaultPlan, FaultRule};
 use crate::world::{World, exit_class};
 use fil_actor_multisig::{
     AddSignerParams, ApproveReturn, ChangeNumApprovalsThresholdParams, ConstructorParams,
@@ -27,6 +28,10 @@ use vm_api::trace::InvocationTrace;
 /// the limit on signers as the property states it
 const SPEC_SIGNERS_MAX: usize = 256;
 const FIRST_EXPORTED: u64 = 1 << 24;
+/// exit code of a send the harness forces to abort (SYS_OUT_OF_GAS; no actor returns it by itself)
+const FAULT_EXIT: u32 = 7;
+/// sequence number of the signer-limit probe
+const PROBE_SEQ: u64 = 1_000_000;
 
 fn atto(n: i64) -> TokenAmount {
     TokenAmount::from_atto(n)
@@ -261,7 +266,11 @@ fn show(e: &Env, p: &WProj) -> String {
 /// root activations of wallet `w` inside `inv` (not descending into them), in execution order
 fn roots<'a>(w: u64, inv: &'a InvocationTrace, out: &mut Vec<&'a InvocationTrace>) {
     if to_id(&inv.to) == Some(w) {
-        out.push(inv);
+        // a forced abort is not an activation of the wallet's code the model could replay
+        // (everything under it was rolled back)
+        if inv.exit_code.value() != FAULT_EXIT {
+            out.push(inv);
+        }
     } else {
         for s in inv.subinvocations.iter() {
             roots(w, s, out);
@@ -535,7 +544,12 @@ impl Oracle {
                             w.log.remove(&id);
                         }
                         (Some(id), None) => out.push(("send-of-a-transaction-nobody-proposed".into(), tag(&format!("tx {}", id)))),
-                        (None, _) => out.push(("send-inside-a-failed-proposal".into(), tag(""))),
+                        (None, _) => {
+                            // a proposal that was forced to abort after it ran lost its return value
+                            if inv.exit_code.value() != FAULT_EXIT {
+                                out.push(("send-inside-a-failed-proposal".into(), tag("")));
+                            }
+                        }
                     }
                     self.walk(snd, epoch, depth + 1, out);
                 }
@@ -1042,6 +1056,81 @@ impl Seq<'_> {
         Ok(())
     }
 
+    /// execute one top-level message on the real actors, run the oracle over its trace, and replay
+    /// every wallet's root activation on the model
+    fn deliver(&mut self, m: &TopMsg, fault: Option<bool>, rep: &mut Report) -> Result<(), Bad> {
+        let s = self;
+        let wids: Vec<u64> = s.e.wallets.borrow().clone();
+        let projs: Vec<WProj> = wids.iter().map(|w| project(&s.e, *w).0).collect();
+        let opname = m.desc.split(' ').next().unwrap().to_string();
+        if let Some(after) = fault {
+            let other = wids[(m.wi + 1) % wids.len()];
+            s.e.w.vm.fault_plan.replace(FaultPlan {
+                rules: vec![FaultRule { from: Some(wids[m.wi]), to: Some(other), exit: FAULT_EXIT, after, ..Default::default() }],
+                hits: 0,
+            });
+            s.lines.push(format!("# the send {} -> {} is forced to abort {}", wids[m.wi], other, if after { "after the callee ran" } else { "at once" }));
+        }
+                let total_before = s.e.w.total_balance();
+                let res = s.e.w.apply_raw(&s.e.accts[m.from], &Address::new_id(wids[m.wi]), &atto(m.value), m.method, m.params.clone());
+                let trace = s.e.w.take_trace();
+                let hits = s.e.w.vm.fault_plan.replace(FaultPlan::default()).hits;
+                if hits > 0 {
+                    rep.branch(if fault == Some(true) { "forced-abort-after-run" } else { "forced-abort" });
+                }
+                if res.ok() { rep.ops_ok += 1; } else { rep.err(&format!("{}:{}", opname, exit_class(res.code))); }
+                if res.panicked {
+                    return Err(Bad::Viol("panic".into(), res.message.clone()));
+                }
+                if s.e.w.total_balance() != total_before {
+                    return Err(Bad::Viol("fil-not-conserved".into(), String::new()));
+                }
+                let top = match trace.first() {
+                    Some(t) => t,
+                    None => return Err(Bad::Viol("no-trace".into(), String::new())),
+                };
+                // ---- oracle: walk the invocation tree, then compare with the real state
+                let mut v: Viol = vec![];
+                let before = (s.oracle.sends_seen, s.oracle.reentrant_sends, s.oracle.failed_sends);
+                s.oracle.walk(top, s.epoch, 0, &mut v);
+                s.applied_sends += s.oracle.sends_seen - before.0;
+                let mut after = vec![];
+                for (i, wid) in wids.iter().enumerate() {
+                    let (p, _) = project(&s.e, *wid);
+                    s.oracle.check_state(i, &p, &mut v);
+                    if !res.ok() && p != projs[i] {
+                        v.push(("failed-message-changed-state".into(), format!("wallet {}", wid)));
+                    }
+                    after.push(p);
+                }
+                if let Some((k, d)) = v.into_iter().next() {
+                    return Err(Bad::Viol(k, d));
+                }
+                // ---- correspondence: every wallet's root activation of this message
+                for (i, wid) in wids.iter().enumerate() {
+                    let mut rs = vec![];
+                    roots(*wid, top, &mut rs);
+                    if rs.len() > 1 {
+                        rep.notes.push(format!("more than one root activation of wallet {} in one message", wid));
+                    }
+                    for root in rs {
+                        let mut sends = vec![];
+                        let is_top = std::ptr::eq(root, top);
+                        let toks = act_tokens(&s.e, *wid, root, if is_top { m.hash_ok } else { None }, &mut sends);
+                        let commit = res.ok() && root.exit_code.is_success();
+                        let line = format!("msg {} {} {} {}", i, commit as u8, s.epoch, toks);
+                        let real = format!("{} | {}", real_out(root, &sends), show(&s.e, &after[i]));
+                        rep.branch(&format!("{}:{}", root.method, if root.exit_code.is_success() { "ok" } else { "err" }));
+                        if !is_top {
+                            rep.branch("nested-root");
+                        }
+                        s.ask(&line, &real)?;
+                    }
+                }
+
+        Ok(())
+    }
+
     /// create a wallet through Init.Exec; returns its id when the constructor accepted
     fn create(&mut self, wi: usize, creator: usize, signers: &[u64], threshold: u64, duration: i64, start: i64, value: i64) -> Result<Option<u64>, Bad> {
         let ctor = ConstructorParams {
@@ -1107,14 +1196,15 @@ pub fn run(cfg: &RunCfg) -> Report {
     let nseq = nseq * cfg.budget;
     let mut lean = if cfg.use_lean { Some(LeanDriver::spawn("multisig").expect("lean driver")) } else { None };
     let mut seen = HashSet::new();
-    let seqs: Vec<u64> = match cfg.only_seq { Some(k) => vec![k], None => (0..nseq).collect() };
+    let seqs: Vec<u64> = match cfg.only_seq { Some(k) => vec![k], None => std::iter::once(PROBE_SEQ).chain(0..nseq).collect() };
     let mut tot_sends = 0u64;
     let mut tot_reentrant = 0u64;
     let mut tot_failed = 0u64;
     for seq in seqs {
         let mut r = seq_rng(cfg.seed, seq);
         let w = World::new(false);
-        let accts: Vec<Address> = w.create_accounts(6, 1212, &TokenAmount::from_whole(1000)).into_iter().map(|x| x.0).collect();
+        let probe = seq == PROBE_SEQ;
+        let accts: Vec<Address> = w.create_accounts(if probe { 258 } else { 6 }, 1212, &TokenAmount::from_whole(1000)).into_iter().map(|x| x.0).collect();
         let e = Env { w, accts, wallets: RefCell::new(vec![]), reg: RefCell::new(HashMap::new()) };
         let mut s = Seq { e, oracle: Oracle::default(), lean: lean.as_mut(), lines: vec![], epoch: r.range(0, 30), applied_sends: 0 };
         s.e.w.vm.set_epoch(s.epoch);
@@ -1122,7 +1212,29 @@ pub fn run(cfg: &RunCfg) -> Report {
         rep.sequences += 1;
         let mut step: u64 = 0;
         let mut last_desc = String::from("create");
-        let res: Result<(), Bad> = (|| {
+        let res: Result<(), Bad> = if probe { (|| {
+            // ---- the signer limit: 256 accepted, 257 refused, AddSigner on a full wallet refused
+            let ids: Vec<u64> = s.e.accts.iter().map(|a| a.id().unwrap()).collect();
+            rep.op("create");
+            let a = match s.create(0, 0, &ids[0..SPEC_SIGNERS_MAX], 1, 0, 0, 100)? {
+                Some(a) => a,
+                None => return Ok(()),
+            };
+            rep.op("create-refused");
+            if s.create(1, 0, &ids[0..SPEC_SIGNERS_MAX + 1], 1, 0, 0, 0)?.is_some() {
+                return Err(Bad::Viol("more-than-256-signers-accepted".into(), "constructor".into()));
+            }
+            for (method, list) in [(5u64, vec![ids[SPEC_SIGNERS_MAX] as i64, 0]), (7, vec![ids[1] as i64, ids[SPEC_SIGNERS_MAX] as i64]), (5, vec![ids[1] as i64, 1])] {
+                let params = ProposeParams { to: Address::new_id(a), value: atto(0), method, params: s.e.encode(a, method, &list) };
+                let m = TopMsg { from: 0, wi: 0, value: 0, method: 2, params: IpldBlock::serialize_cbor(&params).unwrap(), hash_ok: None, desc: format!("propose to={} value=0 method={} params={:?}", a, method, list) };
+                last_desc = m.desc.clone();
+                s.lines.push(format!("# {} (wallet with {} signers)", m.desc, SPEC_SIGNERS_MAX));
+                rep.op("propose");
+                rep.ops += 1;
+                s.deliver(&m, None, &mut rep)?;
+            }
+            Ok(())
+        })() } else { (|| {
             // ---- wallet A (sometimes after refused constructors)
             let acct_ids: Vec<u64> = s.e.accts.iter().map(|a| a.id().unwrap()).collect();
             let n = r.range(2, 5) as usize;
@@ -1184,61 +1296,15 @@ pub fn run(cfg: &RunCfg) -> Report {
                 let opname = m.desc.split(' ').next().unwrap().to_string();
                 rep.op(&opname);
                 rep.ops += 1;
-                let total_before = s.e.w.total_balance();
-                let res = s.e.w.apply_raw(&s.e.accts[m.from], &Address::new_id(wids[m.wi]), &atto(m.value), m.method, m.params.clone());
-                let trace = s.e.w.take_trace();
-                if res.ok() { rep.ops_ok += 1; } else { rep.err(&format!("{}:{}", opname, exit_class(res.code))); }
-                if res.panicked {
-                    return Err(Bad::Viol("panic".into(), res.message.clone()));
-                }
-                if s.e.w.total_balance() != total_before {
-                    return Err(Bad::Viol("fil-not-conserved".into(), String::new()));
-                }
-                let top = match trace.first() {
-                    Some(t) => t,
-                    None => return Err(Bad::Viol("no-trace".into(), String::new())),
-                };
-                // ---- oracle: walk the invocation tree, then compare with the real state
-                let mut v: Viol = vec![];
-                let before = (s.oracle.sends_seen, s.oracle.reentrant_sends, s.oracle.failed_sends);
-                s.oracle.walk(top, s.epoch, 0, &mut v);
-                s.applied_sends += s.oracle.sends_seen - before.0;
-                let mut after = vec![];
-                for (i, wid) in wids.iter().enumerate() {
-                    let (p, _) = project(&s.e, *wid);
-                    s.oracle.check_state(i, &p, &mut v);
-                    if !res.ok() && p != projs[i] {
-                        v.push(("failed-message-changed-state".into(), format!("wallet {}", wid)));
-                    }
-                    after.push(p);
-                }
-                if let Some((k, d)) = v.into_iter().next() {
-                    return Err(Bad::Viol(k, d));
-                }
-                // ---- correspondence: every wallet's root activation of this message
-                for (i, wid) in wids.iter().enumerate() {
-                    let mut rs = vec![];
-                    roots(*wid, top, &mut rs);
-                    if rs.len() > 1 {
-                        rep.notes.push(format!("more than one root activation of wallet {} in one message", wid));
-                    }
-                    for root in rs {
-                        let mut sends = vec![];
-                        let is_top = std::ptr::eq(root, top);
-                        let toks = act_tokens(&s.e, *wid, root, if is_top { m.hash_ok } else { None }, &mut sends);
-                        let commit = res.ok() && root.exit_code.is_success();
-                        let line = format!("msg {} {} {} {}", i, commit as u8, s.epoch, toks);
-                        let real = format!("{} | {}", real_out(root, &sends), show(&s.e, &after[i]));
-                        rep.branch(&format!("{}:{}", root.method, if root.exit_code.is_success() { "ok" } else { "err" }));
-                        if !is_top {
-                            rep.branch("nested-root");
-                        }
-                        s.ask(&line, &real)?;
-                    }
-                }
+                let fault = if (m.method == 2 || m.method == 3) && wids.len() > 1 {
+                    // sometimes the send from this wallet to the other one is forced to abort,
+                    // before the callee does anything or after it ran (and re-entered us)
+                    match r.below(12) { 0 => Some(false), 1 | 2 => Some(true), _ => None }
+                } else { None };
+                s.deliver(&m, fault, &mut rep)?;
             }
             Ok(())
-        })();
+        })() };
         tot_sends += s.oracle.sends_seen;
         tot_reentrant += s.oracle.reentrant_sends;
         tot_failed += s.oracle.failed_sends;
